@@ -24,6 +24,22 @@ pub enum Work {
     Xyz { lines: Vec<String> },
     /// an E57 file from the C01 / C03 generators
     E57 { prog: Program, source: Source },
+    /// an XYZ text file beyond the block sizes of buffered readers (> 1 MiB): one skipped line of
+    /// `lead` characters, then `n` lines of 44 characters, LF line ends; `lead` shifts every line
+    /// end relative to the 64 KiB / 1 MiB block borders
+    XyzBig { lead: usize, n: usize, seed: u64 },
+}
+
+fn big_xyz_lines(lead: usize, n: usize, seed: u64) -> Vec<String> {
+    let mut r = Rng::new(seed);
+    let mut lines = Vec::with_capacity(n + 1);
+    lines.push("7".repeat(lead));
+    for _ in 0..n {
+        let c = |r: &mut Rng| format!("{}.{:06}", 100 + r.below(900), r.below(1_000_000));
+        let k = |r: &mut Rng| 100 + r.below(156);
+        lines.push(format!("{} {} {} {} {} {}", c(&mut r), c(&mut r), c(&mut r), k(&mut r), k(&mut r), k(&mut r)));
+    }
+    lines
 }
 
 #[derive(Clone, Debug, Serialize, Deserialize)]
@@ -169,7 +185,7 @@ fn xyz_expected(lines: &[String]) -> Vec<([u32; 3], [u8; 3])> {
     out
 }
 
-fn run_xyz(case: &Case, lines: &[String], st: &mut RunStats) -> Outcome<Case> {
+fn run_xyz(case: &Case, lines: &[String], force_lf: bool, st: &mut RunStats) -> Outcome<Case> {
     let mut dg = Digest::new();
     let mut tag = Digest::new();
     for l in lines {
@@ -178,7 +194,8 @@ fn run_xyz(case: &Case, lines: &[String], st: &mut RunStats) -> Outcome<Case> {
     let scratch = Scratch::new(tag.finish());
     let input = scratch.0.join("in.xyz");
     // line ends derived from the content: LF (mostly), CRLF, or no newline behind the last line
-    let style = tag.finish() % 8;
+    let style = if force_lf { 0 } else { tag.finish() % 8 };
+    st.probe("xyz_file_larger_than_1_mib", lines.iter().map(|l| l.len() + 1).sum::<usize>() > 1 << 20);
     let eol = if style == 1 { "\r\n" } else { "\n" };
     let mut text = lines.join(eol);
     if !lines.is_empty() && style != 2 {
@@ -456,6 +473,12 @@ impl Prop for C20 {
     fn generate(&self, rc: &RunCtx) -> Case {
         let mut g = Rng::stream(rc.run_seed, "gen");
         let mut f = Rng::stream(rc.run_seed, "fault");
+        if rc.index % 8 == 4 {
+            // 45 bytes per line: the lead length sweeps the line ends over every position
+            // relative to the 1 MiB border (and the many 64 KiB borders) of a block-wise reader
+            let lead = ((rc.index / 8) % 45) as usize;
+            return Case { work: Work::XyzBig { lead, n: 23_400 + g.usize_below(4000), seed: g.next_u64() }, damage: vec![] };
+        }
         if rc.index % 2 == 0 {
             let lines = gen_xyz(&mut g);
             let damage = if rc.index % 8 == 6 {
@@ -495,7 +518,8 @@ impl Prop for C20 {
     fn execute(&self, case: &Case, st: &mut RunStats) -> Outcome<Case> {
         st.evaluations = 1;
         match &case.work {
-            Work::Xyz { lines } => run_xyz(case, lines, st),
+            Work::Xyz { lines } => run_xyz(case, lines, false, st),
+            Work::XyzBig { lead, n, seed } => run_xyz(case, &big_xyz_lines(*lead, *n, *seed), true, st),
             Work::E57 { prog, source } => run_e57(case, prog, source, st),
         }
     }
@@ -511,6 +535,14 @@ impl Prop for C20 {
                     let mut l = lines.clone();
                     l.remove(i);
                     out.push(Case { work: Work::Xyz { lines: l }, ..case.clone() });
+                }
+            }
+            Work::XyzBig { lead, n, seed } => {
+                // fewer lines behind the block border; the position of the line ends is kept
+                for m in [24_000usize, 23_400, n / 2] {
+                    if m < *n {
+                        out.push(Case { work: Work::XyzBig { lead: *lead, n: m, seed: *seed }, ..case.clone() });
+                    }
                 }
             }
             Work::E57 { prog, source } => {
